@@ -1,8 +1,13 @@
 (* Proofs/VMpyTieC04.v — the script code the VM model hands to the signature oracle is the script that the
    C04 model (Model/Sighash.v: sighash_f_script, the script part of _make_sighash_f) computes.  Kept apart from
-   Proofs/VMpyP.v so that the VM lemmas do not depend on the C04 development. *)
+   Proofs/VMpyP.v so that the VM lemmas do not depend on the C04 development.
+   Both models follow /repo commit 2ba5b6d: _delete_signature removes the PLAIN push of each blob
+   (VMpy.plain_push and Sighash.plain_push are the same definition); everything below holds by conversion. *)
 From PV Require Import Base.Bytes Base.Outcome Model.Push Spec.VMTypes Model.VMpy.
 From PV Require Model.Sighash.
+
+Lemma plain_push_eq b : VMpy.plain_push b = Sighash.plain_push b.
+Proof. reflexivity. Qed.
 
 (* the two transcriptions of the get_opcodes walk are the same fixpoint up to unfolding `bind` *)
 Lemma delete_walk_eq fuel script sub pc :
